@@ -172,94 +172,94 @@ pub(crate) mod verif_array {
         };
     }
 //@GENERATED-QUANT
-    //@ob name=C14.all.lit.2.e3.p3 harness=k_c14_all_lit_2_e3_p3 props=C14,C04,C06,C01 tier=quick strength=bounded bound="collection written as a literal array of expressions; 2 elements; element/predicate success pattern e=0b11 p=0b11; values and predicate answers symbolic" fns=op::array::all stubs=4 timeout=1500 cutdrop=1 group=medium
+    //@ob name=C14.all.lit.2.e3.p3 harness=k_c14_all_lit_2_e3_p3 props=C14,C04,C06,C01 tier=quick strength=bounded bound="collection written as a literal array of expressions; 2 elements; element/predicate success pattern e=0b11 p=0b11; values and predicate answers symbolic" fns=op::array::all stubs=4 timeout=200 cutdrop=1 group=medium
     //@ desc="all: truth value, error cases, short-circuit evaluation log and scoping (literal-array elements evaluated against the outer data, computed elements passed as data UNPARSED, predicate sees the element) equal the spec"
     quant_harness!(k_c14_all_lit_2_e3_p3, true, 0, 2, 3, 3);
-    //@ob name=C14.all.cnew.2.e3.p3 harness=k_c14_all_cnew_2_e3_p3 props=C14,C04,C06,C01 tier=quick strength=bounded bound="collection computed (fresh array); 2 elements; element/predicate success pattern e=0b11 p=0b11; values and predicate answers symbolic" fns=op::array::all stubs=4 timeout=1500 cutdrop=2 group=medium
+    //@ob name=C14.all.cnew.2.e3.p3 harness=k_c14_all_cnew_2_e3_p3 props=C14,C04,C06,C01 tier=quick strength=bounded bound="collection computed (fresh array); 2 elements; element/predicate success pattern e=0b11 p=0b11; values and predicate answers symbolic" fns=op::array::all stubs=4 timeout=200 cutdrop=2 group=medium
     //@ desc="all: truth value, error cases, short-circuit evaluation log and scoping (literal-array elements evaluated against the outer data, computed elements passed as data UNPARSED, predicate sees the element) equal the spec"
     quant_harness!(k_c14_all_cnew_2_e3_p3, true, 1, 2, 3, 3);
-    //@ob name=C14.all.craw.1.e1.p1 harness=k_c14_all_craw_1_e1_p1 props=C14,C04,C06,C01 tier=quick strength=bounded bound="collection computed (borrowed array); 1 elements; element/predicate success pattern e=0b1 p=0b1; values and predicate answers symbolic" fns=op::array::all stubs=4 timeout=1500 cutdrop=2 group=medium
+    //@ob name=C14.all.craw.1.e1.p1 harness=k_c14_all_craw_1_e1_p1 props=C14,C04,C06,C01 tier=quick strength=bounded bound="collection computed (borrowed array); 1 elements; element/predicate success pattern e=0b1 p=0b1; values and predicate answers symbolic" fns=op::array::all stubs=4 timeout=200 cutdrop=2 group=medium
     //@ desc="all: truth value, error cases, short-circuit evaluation log and scoping (literal-array elements evaluated against the outer data, computed elements passed as data UNPARSED, predicate sees the element) equal the spec"
     quant_harness!(k_c14_all_craw_1_e1_p1, true, 2, 1, 1, 1);
-    //@ob name=C14.all.lit.0.e0.p0 harness=k_c14_all_lit_0_e0_p0 props=C14,C04,C06,C01 tier=quick strength=bounded bound="empty literal array; 0 elements; element/predicate success pattern e=0b0 p=0b0; values and predicate answers symbolic" fns=op::array::all stubs=4 timeout=1500 cutdrop=1 group=medium
+    //@ob name=C14.all.lit.0.e0.p0 harness=k_c14_all_lit_0_e0_p0 props=C14,C04,C06,C01 tier=quick strength=bounded bound="empty literal array; 0 elements; element/predicate success pattern e=0b0 p=0b0; values and predicate answers symbolic" fns=op::array::all stubs=4 timeout=200 cutdrop=1 group=medium
     //@ desc="all: truth value, error cases, short-circuit evaluation log and scoping (literal-array elements evaluated against the outer data, computed elements passed as data UNPARSED, predicate sees the element) equal the spec"
     quant_harness!(k_c14_all_lit_0_e0_p0, true, 0, 0, 0, 0);
-    //@ob name=C14.all.lit.1.e1.p1 harness=k_c14_all_lit_1_e1_p1 props=C14,C04,C06,C01 tier=quick strength=bounded bound="literal array of one expression; 1 elements; element/predicate success pattern e=0b1 p=0b1; values and predicate answers symbolic" fns=op::array::all stubs=4 timeout=1500 cutdrop=1 group=medium
+    //@ob name=C14.all.lit.1.e1.p1 harness=k_c14_all_lit_1_e1_p1 props=C14,C04,C06,C01 tier=quick strength=bounded bound="literal array of one expression; 1 elements; element/predicate success pattern e=0b1 p=0b1; values and predicate answers symbolic" fns=op::array::all stubs=4 timeout=200 cutdrop=1 group=medium
     //@ desc="all: truth value, error cases, short-circuit evaluation log and scoping (literal-array elements evaluated against the outer data, computed elements passed as data UNPARSED, predicate sees the element) equal the spec"
     quant_harness!(k_c14_all_lit_1_e1_p1, true, 0, 1, 1, 1);
-    //@ob name=C14.all.cnew.1.e1.p1 harness=k_c14_all_cnew_1_e1_p1 props=C14,C04,C06,C01 tier=quick strength=bounded bound="computed array of one (fresh); 1 elements; element/predicate success pattern e=0b1 p=0b1; values and predicate answers symbolic" fns=op::array::all stubs=4 timeout=1500 cutdrop=2 group=medium
+    //@ob name=C14.all.cnew.1.e1.p1 harness=k_c14_all_cnew_1_e1_p1 props=C14,C04,C06,C01 tier=quick strength=bounded bound="computed array of one (fresh); 1 elements; element/predicate success pattern e=0b1 p=0b1; values and predicate answers symbolic" fns=op::array::all stubs=4 timeout=200 cutdrop=2 group=medium
     //@ desc="all: truth value, error cases, short-circuit evaluation log and scoping (literal-array elements evaluated against the outer data, computed elements passed as data UNPARSED, predicate sees the element) equal the spec"
     quant_harness!(k_c14_all_cnew_1_e1_p1, true, 1, 1, 1, 1);
-    //@ob name=C14.all.litnull.0.e0.p0 harness=k_c14_all_litnull_0_e0_p0 props=C14,C04,C06,C01 tier=quick strength=bounded bound="literal null; 0 elements; element/predicate success pattern e=0b0 p=0b0; values and predicate answers symbolic" fns=op::array::all stubs=4 timeout=1500 cutdrop=1 group=medium
+    //@ob name=C14.all.litnull.0.e0.p0 harness=k_c14_all_litnull_0_e0_p0 props=C14,C04,C06,C01 tier=quick strength=bounded bound="literal null; 0 elements; element/predicate success pattern e=0b0 p=0b0; values and predicate answers symbolic" fns=op::array::all stubs=4 timeout=200 cutdrop=1 group=medium
     //@ desc="all: truth value, error cases, short-circuit evaluation log and scoping (literal-array elements evaluated against the outer data, computed elements passed as data UNPARSED, predicate sees the element) equal the spec"
     quant_harness!(k_c14_all_litnull_0_e0_p0, true, 3, 0, 0, 0);
-    //@ob name=C14.all.cnull.0.e0.p0 harness=k_c14_all_cnull_0_e0_p0 props=C14,C04,C06,C01 tier=quick strength=bounded bound="computed null; 0 elements; element/predicate success pattern e=0b0 p=0b0; values and predicate answers symbolic" fns=op::array::all stubs=4 timeout=1500 cutdrop=2 group=medium
+    //@ob name=C14.all.cnull.0.e0.p0 harness=k_c14_all_cnull_0_e0_p0 props=C14,C04,C06,C01 tier=quick strength=bounded bound="computed null; 0 elements; element/predicate success pattern e=0b0 p=0b0; values and predicate answers symbolic" fns=op::array::all stubs=4 timeout=200 cutdrop=2 group=medium
     //@ desc="all: truth value, error cases, short-circuit evaluation log and scoping (literal-array elements evaluated against the outer data, computed elements passed as data UNPARSED, predicate sees the element) equal the spec"
     quant_harness!(k_c14_all_cnull_0_e0_p0, true, 4, 0, 0, 0);
-    //@ob name=C14.all.litnum.0.e0.p0 harness=k_c14_all_litnum_0_e0_p0 props=C14,C04,C06,C01 tier=quick strength=bounded bound="literal number (not a collection); 0 elements; element/predicate success pattern e=0b0 p=0b0; values and predicate answers symbolic" fns=op::array::all stubs=4 timeout=1500 cutdrop=1 group=medium
+    //@ob name=C14.all.litnum.0.e0.p0 harness=k_c14_all_litnum_0_e0_p0 props=C14,C04,C06,C01 tier=quick strength=bounded bound="literal number (not a collection); 0 elements; element/predicate success pattern e=0b0 p=0b0; values and predicate answers symbolic" fns=op::array::all stubs=4 timeout=200 cutdrop=1 group=medium
     //@ desc="all: truth value, error cases, short-circuit evaluation log and scoping (literal-array elements evaluated against the outer data, computed elements passed as data UNPARSED, predicate sees the element) equal the spec"
     quant_harness!(k_c14_all_litnum_0_e0_p0, true, 5, 0, 0, 0);
-    //@ob name=C14.all.cerr.0.e0.p0 harness=k_c14_all_cerr_0_e0_p0 props=C14,C04,C06,C01 tier=thorough strength=bounded bound="collection evaluation fails; 0 elements; element/predicate success pattern e=0b0 p=0b0; values and predicate answers symbolic" fns=op::array::all stubs=4 timeout=1500 cutdrop=2 group=medium
+    //@ob name=C14.all.cerr.0.e0.p0 harness=k_c14_all_cerr_0_e0_p0 props=C14,C04,C06,C01 tier=thorough strength=bounded bound="collection evaluation fails; 0 elements; element/predicate success pattern e=0b0 p=0b0; values and predicate answers symbolic" fns=op::array::all stubs=4 timeout=200 cutdrop=2 group=medium
     //@ desc="all: truth value, error cases, short-circuit evaluation log and scoping (literal-array elements evaluated against the outer data, computed elements passed as data UNPARSED, predicate sees the element) equal the spec"
     quant_harness!(k_c14_all_cerr_0_e0_p0, true, 6, 0, 0, 0);
-    //@ob name=C14.all.cbool.0.e0.p0 harness=k_c14_all_cbool_0_e0_p0 props=C14,C04,C06,C01 tier=thorough strength=bounded bound="computed boolean (not a collection); 0 elements; element/predicate success pattern e=0b0 p=0b0; values and predicate answers symbolic" fns=op::array::all stubs=4 timeout=1500 cutdrop=2 group=medium
+    //@ob name=C14.all.cbool.0.e0.p0 harness=k_c14_all_cbool_0_e0_p0 props=C14,C04,C06,C01 tier=thorough strength=bounded bound="computed boolean (not a collection); 0 elements; element/predicate success pattern e=0b0 p=0b0; values and predicate answers symbolic" fns=op::array::all stubs=4 timeout=200 cutdrop=2 group=medium
     //@ desc="all: truth value, error cases, short-circuit evaluation log and scoping (literal-array elements evaluated against the outer data, computed elements passed as data UNPARSED, predicate sees the element) equal the spec"
     quant_harness!(k_c14_all_cbool_0_e0_p0, true, 7, 0, 0, 0);
-    //@ob name=C14.all.lit.2.e1.p3 harness=k_c14_all_lit_2_e1_p3 props=C14,C04,C06,C01 tier=thorough strength=bounded bound="literal array, second element expression fails; 2 elements; element/predicate success pattern e=0b1 p=0b11; values and predicate answers symbolic" fns=op::array::all stubs=4 timeout=1500 cutdrop=1 group=medium
+    //@ob name=C14.all.lit.2.e1.p3 harness=k_c14_all_lit_2_e1_p3 props=C14,C04,C06,C01 tier=thorough strength=bounded bound="literal array, second element expression fails; 2 elements; element/predicate success pattern e=0b1 p=0b11; values and predicate answers symbolic" fns=op::array::all stubs=4 timeout=200 cutdrop=1 group=medium
     //@ desc="all: truth value, error cases, short-circuit evaluation log and scoping (literal-array elements evaluated against the outer data, computed elements passed as data UNPARSED, predicate sees the element) equal the spec"
     quant_harness!(k_c14_all_lit_2_e1_p3, true, 0, 2, 1, 3);
-    //@ob name=C14.all.cnew.2.e3.p1 harness=k_c14_all_cnew_2_e3_p1 props=C14,C04,C06,C01 tier=thorough strength=bounded bound="computed array, second predicate call fails; 2 elements; element/predicate success pattern e=0b11 p=0b1; values and predicate answers symbolic" fns=op::array::all stubs=4 timeout=1500 cutdrop=2 group=medium
+    //@ob name=C14.all.cnew.2.e3.p1 harness=k_c14_all_cnew_2_e3_p1 props=C14,C04,C06,C01 tier=thorough strength=bounded bound="computed array, second predicate call fails; 2 elements; element/predicate success pattern e=0b11 p=0b1; values and predicate answers symbolic" fns=op::array::all stubs=4 timeout=200 cutdrop=2 group=medium
     //@ desc="all: truth value, error cases, short-circuit evaluation log and scoping (literal-array elements evaluated against the outer data, computed elements passed as data UNPARSED, predicate sees the element) equal the spec"
     quant_harness!(k_c14_all_cnew_2_e3_p1, true, 1, 2, 3, 1);
-    //@ob name=C14.all.lit.3.e7.p7 harness=k_c14_all_lit_3_e7_p7 props=C14,C04,C06,C01 tier=thorough strength=bounded bound="literal array of three; 3 elements; element/predicate success pattern e=0b111 p=0b111; values and predicate answers symbolic" fns=op::array::all stubs=4 timeout=1500 cutdrop=1 group=medium
+    //@ob name=C14.all.lit.3.e7.p7 harness=k_c14_all_lit_3_e7_p7 props=C14,C04,C06,C01 tier=thorough strength=bounded bound="literal array of three; 3 elements; element/predicate success pattern e=0b111 p=0b111; values and predicate answers symbolic" fns=op::array::all stubs=4 timeout=200 cutdrop=1 group=medium
     //@ desc="all: truth value, error cases, short-circuit evaluation log and scoping (literal-array elements evaluated against the outer data, computed elements passed as data UNPARSED, predicate sees the element) equal the spec"
     quant_harness!(k_c14_all_lit_3_e7_p7, true, 0, 3, 7, 7);
-    //@ob name=C14.all.cnew.3.e7.p7 harness=k_c14_all_cnew_3_e7_p7 props=C14,C04,C06,C01 tier=thorough strength=bounded bound="computed array of three; 3 elements; element/predicate success pattern e=0b111 p=0b111; values and predicate answers symbolic" fns=op::array::all stubs=4 timeout=1500 cutdrop=2 group=medium
+    //@ob name=C14.all.cnew.3.e7.p7 harness=k_c14_all_cnew_3_e7_p7 props=C14,C04,C06,C01 tier=thorough strength=bounded bound="computed array of three; 3 elements; element/predicate success pattern e=0b111 p=0b111; values and predicate answers symbolic" fns=op::array::all stubs=4 timeout=200 cutdrop=2 group=medium
     //@ desc="all: truth value, error cases, short-circuit evaluation log and scoping (literal-array elements evaluated against the outer data, computed elements passed as data UNPARSED, predicate sees the element) equal the spec"
     quant_harness!(k_c14_all_cnew_3_e7_p7, true, 1, 3, 7, 7);
-    //@ob name=C14.some.lit.2.e3.p3 harness=k_c14_some_lit_2_e3_p3 props=C14,C04,C06,C01 tier=quick strength=bounded bound="collection written as a literal array of expressions; 2 elements; element/predicate success pattern e=0b11 p=0b11; values and predicate answers symbolic" fns=op::array::some stubs=4 timeout=1500 cutdrop=1 group=medium
+    //@ob name=C14.some.lit.2.e3.p3 harness=k_c14_some_lit_2_e3_p3 props=C14,C04,C06,C01 tier=quick strength=bounded bound="collection written as a literal array of expressions; 2 elements; element/predicate success pattern e=0b11 p=0b11; values and predicate answers symbolic" fns=op::array::some stubs=4 timeout=200 cutdrop=1 group=medium
     //@ desc="some: truth value, error cases, short-circuit evaluation log and scoping (literal-array elements evaluated against the outer data, computed elements passed as data UNPARSED, predicate sees the element) equal the spec"
     quant_harness!(k_c14_some_lit_2_e3_p3, false, 0, 2, 3, 3);
-    //@ob name=C14.some.cnew.2.e3.p3 harness=k_c14_some_cnew_2_e3_p3 props=C14,C04,C06,C01 tier=quick strength=bounded bound="collection computed (fresh array); 2 elements; element/predicate success pattern e=0b11 p=0b11; values and predicate answers symbolic" fns=op::array::some stubs=4 timeout=1500 cutdrop=2 group=medium
+    //@ob name=C14.some.cnew.2.e3.p3 harness=k_c14_some_cnew_2_e3_p3 props=C14,C04,C06,C01 tier=quick strength=bounded bound="collection computed (fresh array); 2 elements; element/predicate success pattern e=0b11 p=0b11; values and predicate answers symbolic" fns=op::array::some stubs=4 timeout=200 cutdrop=2 group=medium
     //@ desc="some: truth value, error cases, short-circuit evaluation log and scoping (literal-array elements evaluated against the outer data, computed elements passed as data UNPARSED, predicate sees the element) equal the spec"
     quant_harness!(k_c14_some_cnew_2_e3_p3, false, 1, 2, 3, 3);
-    //@ob name=C14.some.craw.1.e1.p1 harness=k_c14_some_craw_1_e1_p1 props=C14,C04,C06,C01 tier=quick strength=bounded bound="collection computed (borrowed array); 1 elements; element/predicate success pattern e=0b1 p=0b1; values and predicate answers symbolic" fns=op::array::some stubs=4 timeout=1500 cutdrop=2 group=medium
+    //@ob name=C14.some.craw.1.e1.p1 harness=k_c14_some_craw_1_e1_p1 props=C14,C04,C06,C01 tier=quick strength=bounded bound="collection computed (borrowed array); 1 elements; element/predicate success pattern e=0b1 p=0b1; values and predicate answers symbolic" fns=op::array::some stubs=4 timeout=200 cutdrop=2 group=medium
     //@ desc="some: truth value, error cases, short-circuit evaluation log and scoping (literal-array elements evaluated against the outer data, computed elements passed as data UNPARSED, predicate sees the element) equal the spec"
     quant_harness!(k_c14_some_craw_1_e1_p1, false, 2, 1, 1, 1);
-    //@ob name=C14.some.lit.0.e0.p0 harness=k_c14_some_lit_0_e0_p0 props=C14,C04,C06,C01 tier=quick strength=bounded bound="empty literal array; 0 elements; element/predicate success pattern e=0b0 p=0b0; values and predicate answers symbolic" fns=op::array::some stubs=4 timeout=1500 cutdrop=1 group=medium
+    //@ob name=C14.some.lit.0.e0.p0 harness=k_c14_some_lit_0_e0_p0 props=C14,C04,C06,C01 tier=quick strength=bounded bound="empty literal array; 0 elements; element/predicate success pattern e=0b0 p=0b0; values and predicate answers symbolic" fns=op::array::some stubs=4 timeout=200 cutdrop=1 group=medium
     //@ desc="some: truth value, error cases, short-circuit evaluation log and scoping (literal-array elements evaluated against the outer data, computed elements passed as data UNPARSED, predicate sees the element) equal the spec"
     quant_harness!(k_c14_some_lit_0_e0_p0, false, 0, 0, 0, 0);
-    //@ob name=C14.some.lit.1.e1.p1 harness=k_c14_some_lit_1_e1_p1 props=C14,C04,C06,C01 tier=quick strength=bounded bound="literal array of one expression; 1 elements; element/predicate success pattern e=0b1 p=0b1; values and predicate answers symbolic" fns=op::array::some stubs=4 timeout=1500 cutdrop=1 group=medium
+    //@ob name=C14.some.lit.1.e1.p1 harness=k_c14_some_lit_1_e1_p1 props=C14,C04,C06,C01 tier=quick strength=bounded bound="literal array of one expression; 1 elements; element/predicate success pattern e=0b1 p=0b1; values and predicate answers symbolic" fns=op::array::some stubs=4 timeout=200 cutdrop=1 group=medium
     //@ desc="some: truth value, error cases, short-circuit evaluation log and scoping (literal-array elements evaluated against the outer data, computed elements passed as data UNPARSED, predicate sees the element) equal the spec"
     quant_harness!(k_c14_some_lit_1_e1_p1, false, 0, 1, 1, 1);
-    //@ob name=C14.some.cnew.1.e1.p1 harness=k_c14_some_cnew_1_e1_p1 props=C14,C04,C06,C01 tier=quick strength=bounded bound="computed array of one (fresh); 1 elements; element/predicate success pattern e=0b1 p=0b1; values and predicate answers symbolic" fns=op::array::some stubs=4 timeout=1500 cutdrop=2 group=medium
+    //@ob name=C14.some.cnew.1.e1.p1 harness=k_c14_some_cnew_1_e1_p1 props=C14,C04,C06,C01 tier=quick strength=bounded bound="computed array of one (fresh); 1 elements; element/predicate success pattern e=0b1 p=0b1; values and predicate answers symbolic" fns=op::array::some stubs=4 timeout=200 cutdrop=2 group=medium
     //@ desc="some: truth value, error cases, short-circuit evaluation log and scoping (literal-array elements evaluated against the outer data, computed elements passed as data UNPARSED, predicate sees the element) equal the spec"
     quant_harness!(k_c14_some_cnew_1_e1_p1, false, 1, 1, 1, 1);
-    //@ob name=C14.some.litnull.0.e0.p0 harness=k_c14_some_litnull_0_e0_p0 props=C14,C04,C06,C01 tier=quick strength=bounded bound="literal null; 0 elements; element/predicate success pattern e=0b0 p=0b0; values and predicate answers symbolic" fns=op::array::some stubs=4 timeout=1500 cutdrop=1 group=medium
+    //@ob name=C14.some.litnull.0.e0.p0 harness=k_c14_some_litnull_0_e0_p0 props=C14,C04,C06,C01 tier=quick strength=bounded bound="literal null; 0 elements; element/predicate success pattern e=0b0 p=0b0; values and predicate answers symbolic" fns=op::array::some stubs=4 timeout=200 cutdrop=1 group=medium
     //@ desc="some: truth value, error cases, short-circuit evaluation log and scoping (literal-array elements evaluated against the outer data, computed elements passed as data UNPARSED, predicate sees the element) equal the spec"
     quant_harness!(k_c14_some_litnull_0_e0_p0, false, 3, 0, 0, 0);
-    //@ob name=C14.some.cnull.0.e0.p0 harness=k_c14_some_cnull_0_e0_p0 props=C14,C04,C06,C01 tier=quick strength=bounded bound="computed null; 0 elements; element/predicate success pattern e=0b0 p=0b0; values and predicate answers symbolic" fns=op::array::some stubs=4 timeout=1500 cutdrop=2 group=medium
+    //@ob name=C14.some.cnull.0.e0.p0 harness=k_c14_some_cnull_0_e0_p0 props=C14,C04,C06,C01 tier=quick strength=bounded bound="computed null; 0 elements; element/predicate success pattern e=0b0 p=0b0; values and predicate answers symbolic" fns=op::array::some stubs=4 timeout=200 cutdrop=2 group=medium
     //@ desc="some: truth value, error cases, short-circuit evaluation log and scoping (literal-array elements evaluated against the outer data, computed elements passed as data UNPARSED, predicate sees the element) equal the spec"
     quant_harness!(k_c14_some_cnull_0_e0_p0, false, 4, 0, 0, 0);
-    //@ob name=C14.some.litnum.0.e0.p0 harness=k_c14_some_litnum_0_e0_p0 props=C14,C04,C06,C01 tier=quick strength=bounded bound="literal number (not a collection); 0 elements; element/predicate success pattern e=0b0 p=0b0; values and predicate answers symbolic" fns=op::array::some stubs=4 timeout=1500 cutdrop=1 group=medium
+    //@ob name=C14.some.litnum.0.e0.p0 harness=k_c14_some_litnum_0_e0_p0 props=C14,C04,C06,C01 tier=quick strength=bounded bound="literal number (not a collection); 0 elements; element/predicate success pattern e=0b0 p=0b0; values and predicate answers symbolic" fns=op::array::some stubs=4 timeout=200 cutdrop=1 group=medium
     //@ desc="some: truth value, error cases, short-circuit evaluation log and scoping (literal-array elements evaluated against the outer data, computed elements passed as data UNPARSED, predicate sees the element) equal the spec"
     quant_harness!(k_c14_some_litnum_0_e0_p0, false, 5, 0, 0, 0);
-    //@ob name=C14.some.cerr.0.e0.p0 harness=k_c14_some_cerr_0_e0_p0 props=C14,C04,C06,C01 tier=thorough strength=bounded bound="collection evaluation fails; 0 elements; element/predicate success pattern e=0b0 p=0b0; values and predicate answers symbolic" fns=op::array::some stubs=4 timeout=1500 cutdrop=2 group=medium
+    //@ob name=C14.some.cerr.0.e0.p0 harness=k_c14_some_cerr_0_e0_p0 props=C14,C04,C06,C01 tier=thorough strength=bounded bound="collection evaluation fails; 0 elements; element/predicate success pattern e=0b0 p=0b0; values and predicate answers symbolic" fns=op::array::some stubs=4 timeout=200 cutdrop=2 group=medium
     //@ desc="some: truth value, error cases, short-circuit evaluation log and scoping (literal-array elements evaluated against the outer data, computed elements passed as data UNPARSED, predicate sees the element) equal the spec"
     quant_harness!(k_c14_some_cerr_0_e0_p0, false, 6, 0, 0, 0);
-    //@ob name=C14.some.cbool.0.e0.p0 harness=k_c14_some_cbool_0_e0_p0 props=C14,C04,C06,C01 tier=thorough strength=bounded bound="computed boolean (not a collection); 0 elements; element/predicate success pattern e=0b0 p=0b0; values and predicate answers symbolic" fns=op::array::some stubs=4 timeout=1500 cutdrop=2 group=medium
+    //@ob name=C14.some.cbool.0.e0.p0 harness=k_c14_some_cbool_0_e0_p0 props=C14,C04,C06,C01 tier=thorough strength=bounded bound="computed boolean (not a collection); 0 elements; element/predicate success pattern e=0b0 p=0b0; values and predicate answers symbolic" fns=op::array::some stubs=4 timeout=200 cutdrop=2 group=medium
     //@ desc="some: truth value, error cases, short-circuit evaluation log and scoping (literal-array elements evaluated against the outer data, computed elements passed as data UNPARSED, predicate sees the element) equal the spec"
     quant_harness!(k_c14_some_cbool_0_e0_p0, false, 7, 0, 0, 0);
-    //@ob name=C14.some.lit.2.e1.p3 harness=k_c14_some_lit_2_e1_p3 props=C14,C04,C06,C01 tier=thorough strength=bounded bound="literal array, second element expression fails; 2 elements; element/predicate success pattern e=0b1 p=0b11; values and predicate answers symbolic" fns=op::array::some stubs=4 timeout=1500 cutdrop=1 group=medium
+    //@ob name=C14.some.lit.2.e1.p3 harness=k_c14_some_lit_2_e1_p3 props=C14,C04,C06,C01 tier=thorough strength=bounded bound="literal array, second element expression fails; 2 elements; element/predicate success pattern e=0b1 p=0b11; values and predicate answers symbolic" fns=op::array::some stubs=4 timeout=200 cutdrop=1 group=medium
     //@ desc="some: truth value, error cases, short-circuit evaluation log and scoping (literal-array elements evaluated against the outer data, computed elements passed as data UNPARSED, predicate sees the element) equal the spec"
     quant_harness!(k_c14_some_lit_2_e1_p3, false, 0, 2, 1, 3);
-    //@ob name=C14.some.cnew.2.e3.p1 harness=k_c14_some_cnew_2_e3_p1 props=C14,C04,C06,C01 tier=thorough strength=bounded bound="computed array, second predicate call fails; 2 elements; element/predicate success pattern e=0b11 p=0b1; values and predicate answers symbolic" fns=op::array::some stubs=4 timeout=1500 cutdrop=2 group=medium
+    //@ob name=C14.some.cnew.2.e3.p1 harness=k_c14_some_cnew_2_e3_p1 props=C14,C04,C06,C01 tier=thorough strength=bounded bound="computed array, second predicate call fails; 2 elements; element/predicate success pattern e=0b11 p=0b1; values and predicate answers symbolic" fns=op::array::some stubs=4 timeout=200 cutdrop=2 group=medium
     //@ desc="some: truth value, error cases, short-circuit evaluation log and scoping (literal-array elements evaluated against the outer data, computed elements passed as data UNPARSED, predicate sees the element) equal the spec"
     quant_harness!(k_c14_some_cnew_2_e3_p1, false, 1, 2, 3, 1);
-    //@ob name=C14.some.lit.3.e7.p7 harness=k_c14_some_lit_3_e7_p7 props=C14,C04,C06,C01 tier=thorough strength=bounded bound="literal array of three; 3 elements; element/predicate success pattern e=0b111 p=0b111; values and predicate answers symbolic" fns=op::array::some stubs=4 timeout=1500 cutdrop=1 group=medium
+    //@ob name=C14.some.lit.3.e7.p7 harness=k_c14_some_lit_3_e7_p7 props=C14,C04,C06,C01 tier=thorough strength=bounded bound="literal array of three; 3 elements; element/predicate success pattern e=0b111 p=0b111; values and predicate answers symbolic" fns=op::array::some stubs=4 timeout=200 cutdrop=1 group=medium
     //@ desc="some: truth value, error cases, short-circuit evaluation log and scoping (literal-array elements evaluated against the outer data, computed elements passed as data UNPARSED, predicate sees the element) equal the spec"
     quant_harness!(k_c14_some_lit_3_e7_p7, false, 0, 3, 7, 7);
-    //@ob name=C14.some.cnew.3.e7.p7 harness=k_c14_some_cnew_3_e7_p7 props=C14,C04,C06,C01 tier=thorough strength=bounded bound="computed array of three; 3 elements; element/predicate success pattern e=0b111 p=0b111; values and predicate answers symbolic" fns=op::array::some stubs=4 timeout=1500 cutdrop=2 group=medium
+    //@ob name=C14.some.cnew.3.e7.p7 harness=k_c14_some_cnew_3_e7_p7 props=C14,C04,C06,C01 tier=thorough strength=bounded bound="computed array of three; 3 elements; element/predicate success pattern e=0b111 p=0b111; values and predicate answers symbolic" fns=op::array::some stubs=4 timeout=200 cutdrop=2 group=medium
     //@ desc="some: truth value, error cases, short-circuit evaluation log and scoping (literal-array elements evaluated against the outer data, computed elements passed as data UNPARSED, predicate sees the element) equal the spec"
     quant_harness!(k_c14_some_cnew_3_e7_p7, false, 1, 3, 7, 7);
 //@END-GENERATED-QUANT
